@@ -902,7 +902,7 @@ fn gen_wraparound_case(seed: u64, profile: &str, params: &GenParams) -> Case {
         }
         let mode = if params.focus == Focus::C14 { Mode::Check } else { Mode::Inplace };
         let inv = Inv { shape: Shape::Files { mode, paths }, style: StyleArgs::default(), verbosity: 1, check_after: false, cwd: "w".into(), stdin: None, plan: Vec::new(), shim_seed: 1, readdir: "sorted".into(), env: Vec::new(), debug: 0, dashdash: false };
-        return Case { seed, profile: "nofault".to_string(), tree, steps: vec![Step::Inv(inv)] };
+        return Case { seed, profile: "nofault".to_string(), tree, steps: vec![Step::Inv(inv)], hardlinks: Vec::new() };
     }
     if rng.chance(0.25) {
         // every input fails: the number of failures is exactly a power of two (a status or a
@@ -927,7 +927,7 @@ fn gen_wraparound_case(seed: u64, profile: &str, params: &GenParams) -> Case {
             Shape::Files { mode: if check { Mode::Check } else { Mode::Inplace }, paths }
         };
         let inv = Inv { shape, style: StyleArgs::default(), verbosity: 1, check_after: false, cwd: ".".into(), stdin: None, plan: Vec::new(), shim_seed: rng.next_u64() >> 1, readdir: "sorted".into(), env: Vec::new(), debug: 0, dashdash: false };
-        return Case { seed, profile: profile.to_string(), tree, steps: vec![Step::Inv(inv)] };
+        return Case { seed, profile: profile.to_string(), tree, steps: vec![Step::Inv(inv)], hardlinks: Vec::new() };
     }
     let k = *rng.pick(&[65usize, 129, 256, 257, 257]);
     // variant: every document differs (counters of changed files at and beyond a power of two)
@@ -969,7 +969,7 @@ fn gen_wraparound_case(seed: u64, profile: &str, params: &GenParams) -> Case {
         debug: 0,
         dashdash: false,
     };
-    Case { seed, profile: profile.to_string(), tree, steps: vec![Step::Inv(inv)] }
+    Case { seed, profile: profile.to_string(), tree, steps: vec![Step::Inv(inv)], hardlinks: Vec::new() }
 }
 
 /// a whole case without fault plans (plans are added per invocation by `plan::add_plan`, which
@@ -988,7 +988,29 @@ pub fn gen_case(seed: u64, profile: &str, params: &GenParams, oracle: &mut Oracl
         counter: 0,
         seed,
     };
-    let tree = gen_tree(&mut Rng::stream(seed, "tree"), &mut docs);
+    let mut tree = gen_tree(&mut Rng::stream(seed, "tree"), &mut docs);
+    // a second name for one of the files (a hard link: `cp -l` snapshots, package stores): an
+    // ineligible name next to an eligible one, two eligible names, a name in another directory
+    let mut hardlinks: Vec<(String, String)> = Vec::new();
+    {
+        let mut lr = Rng::stream(seed, "hardlinks");
+        if lr.chance(0.06) {
+            let files: Vec<String> = tree.iter().filter(|(k, n)| matches!(n, Node::File(_)) && k.ends_with(".typ")).map(|(k, _)| k.clone()).collect();
+            if !files.is_empty() {
+                let target = lr.pick(&files).clone();
+                let dirs = dirs_of(&tree);
+                let dir = if lr.chance(0.6) { parent(&target).to_string() } else { lr.pick(&dirs).clone() };
+                let name = *lr.pick(&["aaa.txt", "doc.txt", "0snapshot", "hl.typ", "zz.typ", "copy.bak", "A0.typ"]);
+                let key = join(&dir, name);
+                if !tree.contains_key(&key) && (dir == "." || matches!(tree.get(&dir), Some(Node::Dir))) {
+                    let bytes = tree.get(&target).cloned().unwrap();
+                    tree.insert(key.clone(), bytes);
+                    hardlinks.push((key, target));
+                }
+            }
+        }
+    }
+    let tree = tree;
     let n_inv = match rng.below(10) {
         0..=2 => 1,
         3..=5 => 2,
@@ -1059,5 +1081,17 @@ pub fn gen_case(seed: u64, profile: &str, params: &GenParams, oracle: &mut Oracl
         prev = Some(inv.clone());
         steps.push(Step::Inv(inv));
     }
-    Case { seed, profile: profile.to_string(), tree, steps }
+    // The model is path based: it stays exact in a world with hard links only as long as nothing
+    // is written (two names, one inode: a write under one name changes what is read under the
+    // other). So the second name is a real link only in histories of non-writing invocations -
+    // check, stdout, stdin -; otherwise it stays an ordinary file with the same bytes.
+    let writes = steps.iter().any(|s| match s {
+        Step::Inv(i) => matches!(&i.shape, Shape::Files { mode: Mode::Inplace, .. } | Shape::FormatAll { check: false, .. }),
+        // (a user edit writes through one name too)
+        Step::Edit(_) => true,
+    });
+    if writes {
+        hardlinks.clear();
+    }
+    Case { seed, profile: profile.to_string(), tree, steps, hardlinks }
 }
